@@ -15,6 +15,7 @@ def main(argv):
     tier = os.environ.get("VERIF_TIER", "quick")
     if "--tier" in argv:
         tier = argv[argv.index("--tier") + 1]
+    os.environ["VERIF_TIER"] = tier
     try:
         mod = importlib.import_module(f"checks.{pid.lower()}")
         return mod.main(tier)
